@@ -282,6 +282,45 @@ theorem C20_custom_tokens_in_order (rs : List Round) (sf : Bool) (fs : List SFra
               tokens_options, tokens_startup, tokens_resp, List.map_cons]
             exact List.prefix_cons_inj r.resp |>.mpr (authLoop_custom_tokens rs sf gs)
 
+/-- `Challenge` is called with what the server sent and nothing else: first the class name of the AUTHENTICATE frame,
+    then the payloads of the AUTH_CHALLENGE frames that follow, in order — for every authenticator. -/
+theorem C20_challenge_requests (a : AuthImpl) (cls : List UInt8) (rest : List SFrame) :
+    challengeReqs (handshake (some a) (.supported :: .authenticate cls :: rest)).calls <+: cls :: leadingChallenges rest := by
+  simp only [handshake, afterStartup]
+  cases a.challenge cls with
+  | error e => simp
+  | ok r =>
+    obtain ⟨resp, next⟩ := r
+    simpa [List.prefix_cons_inj] using authLoop_reqs next rest
+
+/-- An authenticator's verdict on the server's final data is honoured: if its `Success` fails, the connection is
+    reported ready only when `Success` was never called (its chain had ended by returning a nil challenger). -/
+theorem C20_success_error_fails (rs : List Round) (fs : List SFrame)
+    (h : (handshake (some (.custom rs true)) fs).outcome = .ready) :
+    ∀ d, Call.success d ∉ (handshake (some (.custom rs true)) fs).calls := by
+  rcases fs with _ | ⟨f, fs⟩
+  · cases h
+  · cases f <;> try (cases h)
+    rcases fs with _ | ⟨g, gs⟩
+    · cases h
+    · cases g <;> try (first | (intro d; simp [handshake, afterStartup]; done) | cases h)
+      rename_i cls
+      rcases rs with _ | ⟨r, rs⟩
+      · simp [handshake, afterStartup, AuthImpl.challenge] at h
+      · simp only [handshake, afterStartup, AuthImpl.challenge] at h ⊢
+        by_cases hf : r.fail = true
+        · simp [hf] at h
+        · simp only [hf, Bool.false_eq_true, if_false, Trace.pre_outcome] at h
+          simp only [hf, Bool.false_eq_true, if_false, Trace.pre_calls]
+          intro d hm
+          simp only [List.cons_append, List.nil_append, List.mem_cons, reduceCtorEq, false_or] at hm
+          refine authLoop_success_fails _ gs ?_ h d hm
+          intro a ha
+          by_cases hl : r.last = true
+          · simp [hl] at ha
+          · simp only [hl, Bool.false_eq_true, if_false, Option.some.injEq] at ha
+            exact ⟨rs, ha.symm⟩
+
 /-! ## process death (C05's subject; modelled here because the handshake model must say what the code does) -/
 
 /-- FULL STATEMENT (false for the unchanged code): "no frame sequence makes the start-up kill the process".
